@@ -819,7 +819,7 @@ fn case_options_api(rep: &mut Report, rng: &mut crate::rng::Rng, qi: usize) {
 pub fn sets(ctx: &Ctx) -> Vec<CaseSet> {
     let nt = TOKENS.len();
     let nc = CONTEXTS.len();
-    let n_random = ctx.size(250, 4_000);
+    let n_random = ctx.size(800, 4_000);
     vec![
         CaseSet::new("options-builder-and-query-api-x-all-option-sets", N_Q as u64, Box::new(move |rep, rng, case| case_options_api(rep, rng, case as usize))),
         CaseSet::new(
